@@ -28,6 +28,7 @@ cls(
         "h11_pass_raw_headers": "bool",
         "root_path": "str",
         "server_names": "strs",
+        "alpn_protocols": "strs",
         "websocket_max_message_size": "int",
         "websocket_ping_interval": "opt real",
         "max_app_queue_size": "int",
@@ -42,7 +43,7 @@ cls(
         "max_requests": "opt int", "max_requests_jitter": "int", "backlog": "int", "workers": "int", "certfile": "opt str", "keyfile": "opt str",
     },
     immutable=["log", "keep_alive_max_requests", "keep_alive_timeout", "h2_max_concurrent_streams", "h2_max_header_list_size",
-               "h2_max_inbound_frame_size", "h11_max_incomplete_size", "h11_pass_raw_headers", "root_path", "server_names",
+               "h2_max_inbound_frame_size", "h11_max_incomplete_size", "h11_pass_raw_headers", "root_path", "server_names", "alpn_protocols",
                "websocket_max_message_size", "websocket_ping_interval", "max_app_queue_size", "read_timeout",
                "include_date_header", "include_server_header", "alt_svc_headers", "_quic_addresses", "wsgi_max_body_size",
                "_bind", "_insecure_bind", "_quic_bind", "_root_path", "ssl_handshake_timeout", "startup_timeout", "shutdown_timeout", "graceful_timeout",
